@@ -228,14 +228,14 @@ def run_layout(ctx, rng, MetricFrame, n, ns, nc, scols, snames, skind, spayload,
     bg = mf.by_group
     # names
     ctx.ev("names_checked")
-    ctx.check(list(mf.sensitive_levels) == snames, "sensitive_levels_names", got=mf.sensitive_levels, expected=snames, **wit)
-    ctx.check((mf.control_levels or []) == cnames, "control_levels_names", got=mf.control_levels, expected=cnames, **wit)
-    ctx.check(list(bg.index.names) == cnames + snames, "by_group_index_level_order", got=list(bg.index.names), expected=cnames + snames, **wit)
+    ctx.check(list(mf.sensitive_levels) == snames, "sensitive_levels_names", got=mf.sensitive_levels, expected=snames, wit=wit)
+    ctx.check((mf.control_levels or []) == cnames, "control_levels_names", got=mf.control_levels, expected=cnames, wit=wit)
+    ctx.check(list(bg.index.names) == cnames + snames, "by_group_index_level_order", got=list(bg.index.names), expected=cnames + snames, wit=wit)
     # index set
     got_keys = [norm_key(k, nlev) for k in bg.index]
     ctx.ev("index_sets_compared")
     ctx.check(same_keyset(got_keys, exp_idx) and len(set(map(repr, got_keys))) == len(got_keys), "by_group_index_set_mismatch",
-              got=[list(k) for k in got_keys], expected=[list(k) for k in exp_idx], **wit)
+              got=[list(k) for k in got_keys], expected=[list(k) for k in exp_idx], wit=wit)
     # shape by form
     if form.startswith("bare"):
         ctx.check(isinstance(bg, pd.Series), "by_group_type_for_callable", got=type(bg).__name__)
@@ -251,14 +251,14 @@ def run_layout(ctx, rng, MetricFrame, n, ns, nc, scols, snames, skind, spayload,
             rows = _lookup(part, k)
             if rows is None:
                 ctx.ev("empty_cells_checked")
-                ctx.check(isnan(v), "empty_combination_not_nan", cell=list(k), value=repr(v), metric=name, **wit)
+                ctx.check(isnan(v), "empty_combination_not_nan", cell=list(k), value=repr(v), metric=name, wit=wit)
                 continue
             rec = m.invocation(v)
             ctx.ev("cells_matched_to_invocations")
-            if not ctx.check(rec is not None, "cell_value_not_from_metric_invocation", cell=list(k), value=repr(v), metric=name, **wit):
+            if not ctx.check(rec is not None, "cell_value_not_from_metric_invocation", cell=list(k), value=repr(v), metric=name, wit=wit):
                 continue
             ctx.check(m.rows_of(rec) == exp_rows(rows), "cell_computed_on_wrong_rows_or_param_slices", cell=list(k), metric=name,
-                      saw=m.rows_of(rec)[:12], expected=exp_rows(rows)[:12], **wit)
+                      saw=m.rows_of(rec)[:12], expected=exp_rows(rows)[:12], wit=wit)
             ctx.check(set(rec["params"]) == set(m.param_names), "metric_received_wrong_parameter_names", metric=name,
                       got=sorted(rec["params"]), expected=list(m.param_names))
         # overall
@@ -267,9 +267,9 @@ def run_layout(ctx, rng, MetricFrame, n, ns, nc, scols, snames, skind, spayload,
             v = ov if form.startswith("bare") else ov[name]
             rec = m.invocation(v)
             ctx.ev("overall_matched_to_invocations")
-            if ctx.check(rec is not None, "overall_value_not_from_metric_invocation", value=repr(v), metric=name, **wit):
+            if ctx.check(rec is not None, "overall_value_not_from_metric_invocation", value=repr(v), metric=name, wit=wit):
                 ctx.check(m.rows_of(rec) == exp_rows(range(n)), "overall_not_computed_on_all_rows", metric=name,
-                          saw=m.rows_of(rec)[:12], **wit)
+                          saw=m.rows_of(rec)[:12], wit=wit)
         else:
             colo = ov if isinstance(ov, pd.Series) else ov[name]
             seen = []
@@ -277,16 +277,16 @@ def run_layout(ctx, rng, MetricFrame, n, ns, nc, scols, snames, skind, spayload,
                 k = norm_key(k_raw, nc)
                 rows = _lookup(cpart, k)
                 if rows is None:
-                    ctx.check(isnan(v), "empty_control_combination_not_nan_in_overall", cell=list(k), value=repr(v), **wit)
+                    ctx.check(isnan(v), "empty_control_combination_not_nan_in_overall", cell=list(k), value=repr(v), wit=wit)
                     continue
                 seen.append(k)
                 rec = m.invocation(v)
                 ctx.ev("overall_matched_to_invocations")
-                if ctx.check(rec is not None, "overall_value_not_from_metric_invocation", cell=list(k), value=repr(v), metric=name, **wit):
+                if ctx.check(rec is not None, "overall_value_not_from_metric_invocation", cell=list(k), value=repr(v), metric=name, wit=wit):
                     ctx.check(m.rows_of(rec) == exp_rows(rows), "overall_not_computed_on_control_combination_rows", cell=list(k),
-                              metric=name, saw=m.rows_of(rec)[:12], expected=exp_rows(rows)[:12], **wit)
+                              metric=name, saw=m.rows_of(rec)[:12], expected=exp_rows(rows)[:12], wit=wit)
             ctx.check(same_keyset(seen, list(cpart.keys())), "overall_missing_control_combination", got=[list(s) for s in seen],
-                      expected=[list(s) for s in cpart], **wit)
+                      expected=[list(s) for s in cpart], wit=wit)
 
 
 def _lookup(part, k):
@@ -340,15 +340,15 @@ def run_numeric(ctx, rng, MetricFrame, n, ns, nc, allcols, spayload, cpayload, s
             v = row[name]
             ctx.ev("numeric_cells_compared")
             if rows is None:
-                ctx.check(isnan(v), "empty_combination_not_nan", cell=list(k), metric=name, value=repr(v), **wit)
+                ctx.check(isnan(v), "empty_combination_not_nan", cell=list(k), metric=name, value=repr(v), wit=wit)
             else:
                 ctx.check(np.ndim(v) == 0 and close(v, ref(name, rows), 1e-11, 1e-13), "numeric_cell_mismatch:" + name, cell=list(k),
-                          got=repr(v), expected=ref(name, rows), **wit)
+                          got=repr(v), expected=ref(name, rows), wit=wit)
     ov = mf.overall
     if nc == 0:
         for name in metrics:
             ctx.ev("numeric_cells_compared")
-            ctx.check(close(ov[name], ref(name, list(range(n))), 1e-11, 1e-13), "numeric_overall_mismatch:" + name, got=repr(ov[name]), **wit)
+            ctx.check(close(ov[name], ref(name, list(range(n))), 1e-11, 1e-13), "numeric_overall_mismatch:" + name, got=repr(ov[name]), wit=wit)
     else:
         for k_raw, row in ov.iterrows():
             k = norm_key(k_raw, nc)
@@ -356,10 +356,10 @@ def run_numeric(ctx, rng, MetricFrame, n, ns, nc, allcols, spayload, cpayload, s
             for name in metrics:
                 ctx.ev("numeric_cells_compared")
                 if rows is None:
-                    ctx.check(isnan(row[name]), "empty_control_combination_not_nan_in_overall", cell=list(k), **wit)
+                    ctx.check(isnan(row[name]), "empty_control_combination_not_nan_in_overall", cell=list(k), wit=wit)
                 else:
                     ctx.check(close(row[name], ref(name, rows), 1e-11, 1e-13), "numeric_overall_mismatch:" + name, cell=list(k),
-                              got=repr(row[name]), expected=ref(name, rows), **wit)
+                              got=repr(row[name]), expected=ref(name, rows), wit=wit)
 
 
 def run_adv_names(ctx, rng, MetricFrame):
